@@ -249,6 +249,12 @@ def scan_items(src, path=None):
             t = toks[i]
             kw = t.text
             start = toks[start_i].start
+            if kw == "crate" and i > 0 and toks[i - 1].text == "extern":
+                j = i
+                while toks[j].text != ";":
+                    j += 1
+                i = j + 1
+                continue
             if kw == "fn":
                 name = toks[i + 1].text
                 # find body '{' or ';' at depth 0 (skipping () [] and <>)
